@@ -1,8 +1,119 @@
 import AslModel.Xdl
-/-! # C05 — placeholder while the theorems are being written -/
-namespace C05
-open AslModel.Xdl
+import AslModel.Dtoa
+import AslProofs.JsonSpec
+import AslProofs.XdlEnc
+/-!
+# C05 — JSON (and XDL) encoding round-trips every Var
 
-theorem itoa_zero : itoa 0 = [48] := by decide
+Property theorems only.  All statements are about `AslModel.Xdl.enc / encode / encW / writeChunks /
+readFile` (the transcription of `XdlEncoder`, `Xdl::write`, `Xdl::read` that the driver `asl_c05` runs
+against the real library on every check) and `decode` of C06.  `g P bits` stands for
+`snprintf("%.Pg", x)`; the theorems hold for every `g` with **H1** (`g` prints RFC 8259 number lexemes
+for finite doubles); the driver instantiates `g := AslModel.Dtoa.fmtG`, which the correspondence check
+compares with glibc on every generated number.  The oracle for "accepted by an independent strict JSON
+parser and denotes the same value" is the RFC 8259 grammar `Rfc8259.SerV` (lean/AslProofs/JsonSpec.lean),
+written from the RFC independently of encoder and decoder.
+-/
+namespace C05
+open AslModel.Xdl AslProofs.XdlEnc Rfc8259
+
+/-! ## the encoder output is RFC 8259 JSON denoting the tree -/
+
+/-- for every well-formed tree (32-bit ints, NUL-free strings and keys — arbitrary other bytes: control
+    characters, quotes, backslashes, `/`, 0x7f, high bytes), in compact and pretty JSON mode and at any
+    indentation level, the text written by `_encode` is derivable in the RFC 8259 grammar and denotes
+    `denote v` (= `v` with numbers as the lexemes printed, undefined → null, NaN → null, ±inf → ±1e400,
+    undefined members dropped) -/
+theorem encode_in_rfc (g : Nat → UInt64 → Bytes) (m : Mode) (hj : m.json = true) (hg : H1 g) (v : EV) (hw : WF v)
+    (lvl : Nat) : SerV (denote g m v) (enc g m lvl v) :=
+  enc_ser g m hj hg v lvl hw
+
+/-- the complete text returned by `Json::encode` (with the final newline of pretty mode) is a JSON-text -/
+theorem encode_is_json_text (g : Nat → UInt64 → Bytes) (m : Mode) (hj : m.json = true) (hg : H1 g) (v : EV) (hw : WF v) :
+    SerDoc (denote g m v) (encode g m v) :=
+  encode_serDoc g m hj hg v hw
+
+/-- strings and keys: every NUL-free byte string is written as an RFC 8259 string denoting exactly itself -/
+theorem string_escaping_exact (s : Bytes) (h0 : (0 : UInt8) ∉ s) : SerV (.str s) (encString s) :=
+  encString_ser s h0
+
+/-- ints: `myitoa` prints `[-]int` of RFC 8259 whose decimal value is the int, for all of INT_MIN..INT_MAX -/
+theorem int_lexeme_exact (i : Int) (h1 : -2147483648 ≤ i) (h2 : i ≤ 2147483647) :
+    Number (itoa i) ∧ decVal (itoa i) = i :=
+  ⟨itoa_number i h1 h2, (itoa_spec i h1 h2).2⟩
+
+/-! ## decode ∘ encode -/
+
+/-- JSON round trip on the model, compact or pretty: decoding the encoder's text yields the normalised
+    denotation of the tree (nesting ≤ 1000 = XDL_MAX_DEPTH) -/
+theorem json_roundtrip (g : Nat → UInt64 → Bytes) (m : Mode) (hj : m.json = true) (hg : H1 g) (v : EV) (hw : WF v)
+    (hd : depth (denote g m v) ≤ 1000) : decode (encode g m v) = some (some (norm (denote g m v))) :=
+  decode_encode g m hj hg v hw hd
+
+/-- ... where an int comes back as the same int when it has at most 9 characters and as `atof` of its
+    exact decimal lexeme otherwise (INT_MIN, 1000000000 …) -/
+theorem roundtrip_int (g : Nat → UInt64 → Bytes) (m : Mode) (i : Int) (h1 : -2147483648 ≤ i) (h2 : i ≤ 2147483647) :
+    norm (denote g m (.int i)) = if (itoa i).length ≤ 9 then .int i else .num (itoa i) :=
+  norm_denote_int g m i h1 h2
+
+/-- ... strings, booleans and null come back identical -/
+theorem roundtrip_scalars (g : Nat → UInt64 → Bytes) (m : Mode) (s : Bytes) (b : Bool) :
+    norm (denote g m (.str s)) = .str s ∧ norm (denote g m (.bool b)) = .bool b ∧ norm (denote g m .null) = .null := by
+  simp [denote, norm]
+
+/-- ... and an object with pairwise distinct keys (what a `Dic` holds) comes back with exactly its
+    members, in order, nothing merged -/
+theorem roundtrip_object_members (ms : List (Bytes × JV)) (h : (ms.map (·.1)).Nodup) :
+    normM ms [] = ms.map fun p => (p.1, norm p.2) := by
+  have := normM_distinct ms [] h (by intro p hp; simp at hp)
+  simpa using this
+
+/-! ## files: the sink loses nothing, chunked reading changes nothing -/
+
+/-- `sink_concat`: the concatenation of everything handed to the file sink (flushes above 16000 bytes
+    after any node + the final write) is exactly the text `encode` returns — for every mode, JSON or XDL -/
+theorem sink_concat (g : Nat → UInt64 → Bytes) (m : Mode) (v : EV) : (writeChunks g m v).flatten = encode g m v :=
+  writeChunks_flatten g m v
+
+/-- the writer refines the pure encoder from any sink state -/
+theorem writer_refines (g : Nat → UInt64 → Bytes) (m : Mode) (lvl : Nat) (v : EV) (w : W) :
+    (encW g m lvl v w).total = w.total ++ enc g m lvl v :=
+  encW_total g m lvl v w
+
+/-- `read_chunks`: `Xdl::read` of a non-empty NUL-free file of any size — BOM probe, 16382-byte chunks,
+    flush — is `decode` of its content after an optional BOM (instance of C06 `chunk_indep`) -/
+theorem read_chunks (content : Bytes) (hne : content ≠ []) (h0 : (0 : UInt8) ∉ content) :
+    readFile content = decode (stripBom content) :=
+  readFile_eq_decode content hne h0
+
+/-- write ∘ read through a file of any size = decode ∘ encode (JSON modes) -/
+theorem file_roundtrip (g : Nat → UInt64 → Bytes) (m : Mode) (hj : m.json = true) (hg : H1 g) (v : EV) (hw : WF v) :
+    readFile (writeChunks g m v).flatten = decode (encode g m v) :=
+  AslProofs.XdlEnc.file_roundtrip g m hj hg v hw
+
+/-! ## statements kept in full, validated by the correspondence check only -/
+
+/-- H2 (glibc): `atof` of the 17-digit lexeme gives the double back bit for bit — a hypothesis about
+    libc, exercised by K and the python oracle on every generated double, not proved -/
+def double_roundtrip_full (g : Nat → UInt64 → Bytes) (atof : Bytes → UInt64) : Prop :=
+  ∀ b : UInt64, dFinite b = true → b.toNat % 2 ^ 63 ≠ 0 → atof (g 17 b) = b
+
+/-- XDL round trip for identifier keys (`name=value`, `Y/N`, class prefix, newline separators): K only -/
+def xdl_roundtrip_full (g : Nat → UInt64 → Bytes) : Prop :=
+  ∀ (m : Mode) (v : EV), m.json = false → WF v → H1 g → depth (denote g m v) ≤ 1000 →
+    (∃ r, decode (encode g m v) = some (some r))
+
+/-! ## non-vacuity -/
+
+/-- the hypothesis H1 is satisfiable and the statements are about texts that really occur -/
+example : encode (fun _ _ => [49, 46, 53]) ⟨false, false, true, false⟩
+    (.obj [([97], .arr [.int (-7), .num 0x3ff8000000000000, .str [34, 1]]), ([98], .none)]) =
+    [123, 34, 97, 34, 58, 91, 45, 55, 44, 49, 46, 53, 44, 34, 92, 34, 92, 117, 48, 48, 48, 49, 34, 93, 125] := by rfl
+example : H1 (fun _ _ => [49, 46, 53]) := by
+  intro P b _
+  exact Number.mk [] [49] [46, 53] [] (Or.inl rfl) (.nz 49 [] (by decide) (by decide) (by intro x hx; simp at hx))
+    (.some 53 [] (by unfold isDig; decide) (by intro x hx; simp at hx)) .none
+example : WF (.obj [([97], .arr [.int (-7), .num 0x3ff8000000000000, .str [34, 1]]), ([98], .none)]) := by
+  simp [WF, WFM, WFL]
 
 end C05
